@@ -42,6 +42,7 @@ type c15Case struct {
 	StatsInCB  bool // sub-workload: Stats()/MemoryUsed() from the event call-back
 	SegVer     int  // 2 = the ice v2 probe (reported separately)
 	RaceLogDir string
+	NapUnderFiles int `json:",omitempty"` // >0: the persister waits for a lagging merger once the directory holds this many files
 	CloseGate  string // "": close whenever; else hold a background goroutine at this point, start Close, let it go
 }
 
@@ -50,6 +51,7 @@ type c15Result struct {
 	CloseSeconds float64
 	CloseStuck   string // goroutine dumps when Close did not return
 	Deadlock     bool
+	Spinning     string // Close did not return and this writer goroutine was busy in the same function in seven looks over two minutes
 	ReopenErr    string
 	ReopenDiff   string
 	Errors       []string
@@ -77,7 +79,7 @@ func c15Child(in json.RawMessage) (interface{}, error) {
 		opMu.Unlock()
 	}
 	freshDir(cs.Dir) // (a case can be run a second time by the child runner)
-	rg := newRig(rigOpts{Dir: cs.Dir, Merge: "happy", MemMerge: cs.MemMerge, Unsafe: cs.Unsafe, Seed: cs.Seed | 1, SegVer: cs.SegVer})
+	rg := newRig(rigOpts{Dir: cs.Dir, Merge: "happy", MemMerge: cs.MemMerge, Unsafe: cs.Unsafe, Seed: cs.Seed | 1, SegVer: cs.SegVer, NapUnderFiles: cs.NapUnderFiles})
 	if cs.StatsInCB {
 		cb := rg.Sched.EventCallback()
 		rg.Cfg = bx.WithIC(rg.Cfg, func(ic *index.Config) {
@@ -272,24 +274,52 @@ func c15Child(in json.RawMessage) (interface{}, error) {
 		time.Sleep(20 * time.Millisecond)
 		gateHold.Release()
 	}
-	select {
-	case err := <-closed:
+	closeReturned := func(err error) {
 		if err != nil {
 			fail("close: " + err.Error())
 		}
 		res.CloseSeconds = time.Since(closeStart).Seconds()
+	}
+	select {
+	case err := <-closed:
+		closeReturned(err)
 	case <-time.After(40 * time.Second):
 		d1 := goroutineDump()
 		time.Sleep(3 * time.Second)
 		d2 := goroutineDump()
-		res.CloseStuck = d1
 		// deadlock of the shutdown: Close and every background goroutine of the writer are blocked on
 		// channels / locks / wait groups, in the same place, in two dumps three seconds apart (goroutines
 		// of the harness - readers that are still searching - do not matter for this)
 		s1, ok1 := writerGoroutines(d1)
 		s2, ok2 := writerGoroutines(d2)
 		res.Deadlock = ok1 && ok2 && s1 == s2 && s1 != ""
-		return res, nil
+		done := false
+		if !res.Deadlock {
+			// not a deadlock: Close is slow, or a goroutine of the writer runs without getting anywhere. The
+			// wait goes on for two more minutes; every 20 s the writer goroutines that are NOT blocked are
+			// looked up: the same goroutine busy in the same function of package index in all seven looks,
+			// with Close still waiting, is a shutdown that spins (a slow one moves on)
+			spin := busyWriterFrames(d2)
+			same := spin != ""
+			for k := 0; k < 6 && !done; k++ {
+				select {
+				case err := <-closed:
+					closeReturned(err)
+					done = true
+				case <-time.After(20 * time.Second):
+					if f := busyWriterFrames(goroutineDump()); f != spin {
+						same = false
+					}
+				}
+			}
+			if !done && same {
+				res.Spinning = spin
+			}
+		}
+		if !done {
+			res.CloseStuck = d1
+			return res, nil
+		}
 	}
 	rwg.Wait()
 	res.Signature = fmt.Sprintf("%016x", vk.Hash64(rg.Sched.Signature(400)))
@@ -396,6 +426,43 @@ func writerGoroutines(dump string) (sig string, ok bool) {
 	return strings.Join(l, ";"), ok
 }
 
+// busyWriterFrames: for every goroutine that runs code of the index writer and is NOT blocked on a channel,
+// lock or wait group: the innermost function of package index on its stack (sorted, joined).
+func busyWriterFrames(dump string) string {
+	var l []string
+	for _, blk := range strings.Split(dump, "\n\n") {
+		if !strings.HasPrefix(blk, "goroutine ") || !strings.Contains(blk, "blugelabs/bluge/index.(*Writer).") || strings.Contains(blk, ".analysisWorker") {
+			continue
+		}
+		lines := strings.Split(blk, "\n")
+		state := lines[0]
+		if i := strings.Index(state, "["); i >= 0 {
+			state = strings.TrimSuffix(state[i+1:], "]:")
+		}
+		if i := strings.Index(state, ","); i >= 0 {
+			state = state[:i]
+		}
+		switch state {
+		case "chan send", "chan receive", "select", "semacquire", "sync.WaitGroup.Wait", "sync.Mutex.Lock", "sync.RWMutex.Lock", "sync.RWMutex.RLock", "sync.Cond.Wait", "chan send (nil chan)", "chan receive (nil chan)", "select (no cases)":
+			continue
+		}
+		for _, ln := range lines[1:] {
+			if strings.HasPrefix(ln, "\t") || strings.HasPrefix(ln, "created by") {
+				continue
+			}
+			if strings.Contains(ln, "blugelabs/bluge/index.") {
+				if i := strings.LastIndex(ln, "("); i > 0 {
+					ln = ln[:i]
+				}
+				l = append(l, ln)
+				break
+			}
+		}
+	}
+	sort.Strings(l)
+	return strings.Join(l, ";")
+}
+
 var goroutineHeader = regexp.MustCompile(`(?m)^goroutine \d+ \[([^\]]+)\]:\n([^\n]+)`)
 
 // blockedSignature: the multiset of (state, top frame) of all goroutines.
@@ -478,15 +545,19 @@ func runC15(c *vk.Ctx) {
 		if i%8 == 3 {
 			gate = "after-snp" // (an unsafe case)
 		}
+		nap := 0
+		if gate == "merge-begin" || i%7 == 6 {
+			nap = 6 // Close while the persister waits for the (held) merger to catch up
+		}
 		cases = append(cases, c15Case{Seed: vk.SubSeed(c.Seed, fmt.Sprintf("c15-%d", i)), Dir: c.TempDir("c15-"), Writers: 2 + i%3, Readers: 1 + i%3, Procs: []int{1, 2, 4, 16}[i%4],
 			Unsafe: i%4 == 3, MemMerge: i%2 == 0 || (i%4 == 3 && i%16 != 15), StatsInCB: i%5 == 4, RaceLogDir: logDir,
-			CloseGate: gate})
+			CloseGate: gate, NapUnderFiles: nap})
 	}
 	// the same workload on the second bundled segment format (two probe runs)
 	for i := 0; i < 2; i++ {
 		cases = append(cases, c15Case{Seed: vk.SubSeed(c.Seed, fmt.Sprintf("c15-v2-%d", i)), Dir: c.TempDir("c15-"), Writers: 2, Readers: 2, Procs: 16, MemMerge: i == 0, SegVer: 2, RaceLogDir: logDir})
 	}
-	results := vk.RunChildren(c.Scratch(), "c15run", cases, vk.ChildOpts{PerChild: 1, Parallel: runtime.NumCPU() / 2, CaseTimeout: 180 * time.Second,
+	results := vk.RunChildren(c.Scratch(), "c15run", cases, vk.ChildOpts{PerChild: 1, Parallel: runtime.NumCPU() / 2, CaseTimeout: 300 * time.Second,
 		Env: []string{"GORACE=halt_on_error=0 log_path=" + filepath.Join(logDir, "race")}})
 	for i, res := range results {
 		cs := cases[i].(c15Case)
@@ -528,6 +599,8 @@ func runC15(c *vk.Ctx) {
 		if out.CloseStuck != "" {
 			if out.Deadlock {
 				c.Violate("close-does-not-terminate", fmt.Sprintf("Close did not return within 40 s and two goroutine dumps 3 s apart show the same blocked goroutines:\n%s", firstLines(out.CloseStuck, 80)), cs)
+			} else if out.Spinning != "" {
+				c.Violate("close-does-not-terminate:spinning", fmt.Sprintf("Close did not return within 160 s; in seven looks, 20 s apart, the same goroutine(s) of the writer were running (not blocked) in %s while Close waited:\n%s", out.Spinning, firstLines(out.CloseStuck, 80)), cs)
 			} else {
 				c.Inconclusive("close-slow")
 			}
